@@ -209,6 +209,9 @@ def root(n, locals_init=None, depth=0):
             return (ra if order.index(ra[0]) <= order.index(rb[0]) else rb)
         if kd == 'call':
             if n.get('method') and n.get('obj') is not None:
+                t = n.get('t', '').rstrip()
+                if not n.get('lv') and not t.endswith('*') and n.get('op') not in ('->',):
+                    return 'temp', n      # returns an object by value: a copy, not a way into the object
                 n = n['obj']
                 continue
             nm = callee(n)
